@@ -68,6 +68,9 @@ def gen_scenario(rng, allow_zero_stop=True, small=False, delayed=False):
                 sends.append({"k": k, "from": rng.randrange(0, next_id), "uid": uid, "to": rng.randrange(0, next_id + 1),
                               "delay": rng.choice([None, round(dt * 2, 6), round(dt * 3, 6)] if delayed else [None, None, round(dt * 2, 6)]),
                               "name": "ping"})
+                if rng.random() < 0.3:
+                    # the same sender first sends the same agent something nobody has a handler for (uid ...999 marks it)
+                    sends.insert(len(sends) - 1, {"k": k, "from": sends[-1]["from"], "uid": uid * 1000 + 999, "to": sends[-1]["to"], "delay": None, "name": "noise"})
     return {"start": start, "stop": stop, "dt": dt, "init": init, "pop": pop, "states": states, "props": props, "sends": sends, "acts": acts}
 
 
